@@ -121,7 +121,14 @@ func backSlice(v ssa.Value, followArgs bool, visit func(ssa.Value)) {
 				for _, a := range x.Call.Args {
 					walk(a)
 				}
+				if x.Call.IsInvoke() {
+					walk(x.Call.Value) // the receiver of an interface method call
+				}
 			}
+		case *ssa.Next:
+			walk(x.Iter)
+		case *ssa.Range:
+			walk(x.X)
 		}
 	}
 	walk(v)
